@@ -174,8 +174,8 @@ Proof.
   induction l as [|x r IH]; intros i D; cbn [flat_map].
   - destruct (denotes_inv_nil _ D) as (a & b & E). apply (denotes_nil _ _ _ (selectmany_ends f _ _ _ E)).
   - destruct (denotes_inv_cons _ _ _ D) as (j & a & b & Y & D1). specialize (IH j D1). unfold expand at 1.
-    destruct (apply f x) as [| bb | z | m e] eqn:A.
-    1-3: cbn [app]; rewrite <- A; refine (denotes_cons _ _ _ _ _ _ (selectmany_scalar f _ _ _ _ _ Y _) IH); intros m e; rewrite A; discriminate.
+    destruct (apply f x) as [| bb | z | m e | str | dm dd] eqn:A.
+    1-3, 5-6: cbn [app]; rewrite <- A; refine (denotes_cons _ _ _ _ _ _ (selectmany_scalar f _ _ _ _ _ Y _) IH); intros m e; rewrite A; discriminate.
     apply (denotes_via_skip _ _ a (b + 1) _
              (fun v k p q Y2 => selectmany_list_yield f _ _ _ _ _ m e _ _ _ _ Y A Y2)
              (fun p q E2 => selectmany_list_end f _ _ _ _ _ m e _ _ Y A E2)
